@@ -47,6 +47,11 @@ def first_diff(a, b):
 def search(seeds=None, norders=None):
     seeds = seeds or ((0, 1, 2, 3, 7) if not realrun.thorough() else tuple(range(12)))
     norders = norders or (4 if not realrun.thorough() else 8)
+    from bounded import c07
+    bad = c07.inherited_generics(("idents",))
+    if bad:
+        return {"confirmed": True, "input": {"source": c07.INHERITED_GENERIC}, "actual": bad, "expected": "identifiers (anchors, graph node names) do not depend on who asks for them first",
+                "how": "real pipeline: identifiers of the inherited copies of a generic binding, read in reverse order after Project.correlate()"}
     files = project_files()
     with realrun.project_dir(files) as d:
         ref = run(d, seeds[0])
